@@ -516,5 +516,14 @@ def r17_9(ctx):
      ctx.bad(construct, "the membership test of the highlighted row is gone: a load that hides that row (while siblings stay visible) makes _update_menu() raise ValueError",
              h.loc()))
 
+def r17_10(ctx):
+    """R17.10 the dialog validates against the range the evaluator uses - the first range whose condition holds: the range
+    searches of formatting.check_valid() and range_info() stop at the first active entry."""
+    from .common import first_match_loops
+    n = first_match_loops(ctx, [f"{FMT}:check_valid", f"{FMT}:range_info"], "the dialog accepts / shows another range than the one the evaluator clamps to")
+    if n < 3:
+        raise AnalysisError(f"only {n} range searches found in formatting")
+
+
 def rules():
-    return [("R17.9", r17_9, 2), ("R17.8", r17_8, 6), ("R17.7", r17_7, 5), ("R17.1", r17_1, 6), ("R17.5", r17_5, 4), ("R17.2", r17_2, 13), ("R17.3", r17_3, 4), ("R17.4", r17_4, 6), ("R17.6", r17_6, 3)]
+    return [("R17.10", r17_10, 3), ("R17.9", r17_9, 2), ("R17.8", r17_8, 6), ("R17.7", r17_7, 5), ("R17.1", r17_1, 6), ("R17.5", r17_5, 4), ("R17.2", r17_2, 13), ("R17.3", r17_3, 4), ("R17.4", r17_4, 6), ("R17.6", r17_6, 3)]
